@@ -349,43 +349,49 @@ impl Args {
 
 /// An iterator may be consumed in many ways; the provided methods (count, last, nth, fold, size_hint ...) can be
 /// overridden by the implementation, so every route must see the elements that stepping with next() sees.
-/// `mk` makes a fresh iterator (items already projected); returns the first route that disagrees.
-pub fn iter_routes<I: Iterator<Item = J>>(mk: &dyn Fn() -> I) -> Option<String> {
+/// `mk` makes a fresh RAW iterator (adaptors such as `map` do not forward nth / count / last to the iterator they wrap,
+/// so the methods are called on the iterator itself and the items are projected afterwards by `pj`).
+/// Returns the first route that disagrees.
+pub fn iter_routes<I: Iterator>(mk: &dyn Fn() -> I, pj: &dyn Fn(I::Item) -> J) -> Option<String> {
 	let mut stepped = vec![];
 	let mut it = mk();
 	let (lo0, hi0) = it.size_hint();
 	while let Some(x) = it.next() {
-		stepped.push(x);
+		stepped.push(pj(x));
 		if stepped.len() > 1_000_000 {
 			return Some("next() never ends".into());
 		}
-	}
-	if it.next().is_some() && false {
-		return Some("yields again after None".into());
 	}
 	let n = stepped.len();
 	if lo0 > n || hi0.map(|h| h < n).unwrap_or(false) {
 		return Some(format!("size_hint ({lo0}, {hi0:?}) excludes the real length {n}"));
 	}
-	if mk().collect::<Vec<_>>() != stepped {
+	if mk().collect::<Vec<_>>().into_iter().map(pj).collect::<Vec<_>>() != stepped {
 		return Some("collect".into());
 	}
 	if mk().count() != n {
 		return Some("count".into());
 	}
-	if mk().last() != stepped.last().cloned() {
+	if mk().last().map(pj) != stepped.last().cloned() {
 		return Some("last".into());
 	}
-	if mk().fold(Vec::new(), |mut v, x| { v.push(x); v }) != stepped {
+	if mk().fold(Vec::new(), |mut v, x| { v.push(pj(x)); v }) != stepped {
 		return Some("fold".into());
+	}
+	let mut via_for = vec![];
+	for x in mk() {
+		via_for.push(pj(x));
+	}
+	if via_for != stepped {
+		return Some("for loop".into());
 	}
 	for k in 0..n + 2 {
 		let mut it = mk();
-		if it.nth(k) != stepped.get(k).cloned() {
+		if it.nth(k).map(pj) != stepped.get(k).cloned() {
 			return Some(format!("nth({k})"));
 		}
 		// the iterator continues right after the element nth returned
-		if k < n && it.next() != stepped.get(k + 1).cloned() {
+		if k < n && it.next().map(pj) != stepped.get(k + 1).cloned() {
 			return Some(format!("next() after nth({k})"));
 		}
 		// nth on an iterator that has already yielded elements by next()
@@ -394,22 +400,23 @@ pub fn iter_routes<I: Iterator<Item = J>>(mk: &dyn Fn() -> I) -> Option<String> 
 			for _ in 0..pre {
 				it.next();
 			}
-			if it.nth(k) != stepped.get(pre + k).cloned() {
+			if it.nth(k).map(pj) != stepped.get(pre + k).cloned() {
 				return Some(format!("nth({k}) after {pre} x next()"));
 			}
-			if it.next() != stepped.get(pre + k + 1).cloned() {
+			if it.next().map(pj) != stepped.get(pre + k + 1).cloned() {
 				return Some(format!("next() after nth({k}) after {pre} x next()"));
 			}
 		}
-		if k >= 1 && mk().step_by(k).collect::<Vec<_>>() != stepped.iter().step_by(k).cloned().collect::<Vec<_>>() {
+		if k >= 1 && mk().step_by(k).map(pj).collect::<Vec<_>>() != stepped.iter().step_by(k).cloned().collect::<Vec<_>>() {
 			return Some(format!("step_by({k})"));
 		}
 		let mut it = mk();
-		let (a, b): (Vec<J>, Vec<J>) = (it.by_ref().take(k).collect(), it.collect());
+		let a: Vec<J> = it.by_ref().take(k).map(pj).collect();
+		let b: Vec<J> = it.map(pj).collect();
 		if a.iter().chain(b.iter()).cloned().collect::<Vec<_>>() != stepped {
 			return Some(format!("take({k}) then the rest"));
 		}
-		if mk().skip(k).collect::<Vec<_>>() != stepped.iter().skip(k).cloned().collect::<Vec<_>>() {
+		if mk().skip(k).map(pj).collect::<Vec<_>>() != stepped.iter().skip(k).cloned().collect::<Vec<_>>() {
 			return Some(format!("skip({k})"));
 		}
 	}
